@@ -363,6 +363,22 @@ fn scenes() -> Vec<Scene> {
 				}
 			},
 		},
+		Scene {
+			name: "spatial track, listener orientation given as a quaternion of length 0.5 (nothing moves)",
+			exact: false,
+			long_only: false,
+			build: |ibs| {
+				let mut m = rig::manager(SR, ibs, rig::caps(4), MainTrackBuilder::new());
+				let l = m.add_listener(glam::Vec3::new(1.0, 0.0, 0.0), glam::Quat::from_rotation_y(0.6) * 0.5).unwrap();
+				let mut t = m.add_spatial_sub_track(&l, glam::Vec3::new(4.0, 1.0, -2.0), SpatialTrackBuilder::new().spatialization_strength(1.0)).unwrap();
+				let s = t.play(noise_sound(23).loop_region(Region::from(..))).unwrap();
+				Built {
+					m,
+					_keep: vec![Box::new(l), Box::new(t), Box::new(s)],
+					stream: None,
+				}
+			},
+		},
 	]
 }
 
